@@ -137,7 +137,16 @@ def gen_case(ch: Chooser, excl=(), placement=None, cwd=None):
         if ch.bool(1, 2):
             opts["page_dir"] = "./pages"
             cs = ch.weighted([(3, None), (2, "figs"), (1, "../shared_figs")] +
-                             ([(1, "../../escape")] if "copy_subdir_escape" not in excl else []))
+                             ([(1, "../../escape"), (1, "prefix-escape")] if "copy_subdir_escape" not in excl else []))
+            if cs == "prefix-escape":
+                # escapes to a directory *beside* the output directory whose name starts like the output directory's
+                outbase = os.path.basename(os.path.normpath(allowed[0])) if allowed else "doc"
+                cs = f"../../{outbase}-figures"
+                opts["page_dir"] = "./docs/user/pages"
+                files[f"proj/docs/{outbase}-figures/fig.txt"] = "figure beside the output directory\n"
+                files["proj/docs/user/pages/index.md"] = f"title: Pages\ncopy_subdir: {cs}\n\nText.\n"
+                files["proj/docs/user/pages/more.md"] = "title: More\n\nmore\n"
+                feats.append("copy_subdir-prefix-escape")
             head = "title: Pages\n" + (f"copy_subdir: {cs}\n" if cs else "")
             files["proj/pages/index.md"] = head + "\nText.\n"
             files["proj/pages/figs/x.png"] = "fig\n"
